@@ -590,9 +590,10 @@ Section BuilderProofs.
   Qed.
 End BuilderProofs.
 
-Lemma build_flow_no_fuel : forall cf allstarts fc, build_flow cf true allstarts fc <> FFuel.
+Lemma build_flow_with_no_fuel : forall fresh cf allstarts fc,
+  build_flow_with fresh cf true allstarts fc <> FFuel.
 Proof.
-  intros cf allstarts fc. unfold build_flow.
+  intros fresh cf allstarts fc. unfold build_flow_with.
   assert (B : forall d s, build_conns cf true (fc_name fc) d (build_fuel cf) (fc_name fc)
                                       [fc_name fc] (fc_conns fc d) s <> BFuel).
   { intros d s. apply build_conns_no_fuel.
@@ -602,9 +603,10 @@ Proof.
   pose proof (B Req (empty_bdir, None)) as BQ. cbn [fc_conns] in BQ.
   destruct (build_conns cf true (fc_name fc) Req (build_fuel cf) (fc_name fc) [fc_name fc]
                         (fc_req fc) (empty_bdir, None)) as [[bq foreign]| |]; [|discriminate|contradiction].
-  pose proof (B Res (empty_bdir, foreign)) as BS. cbn [fc_conns] in BS.
+  pose proof (B Res (empty_bdir, if fresh then None else foreign)) as BS. cbn [fc_conns] in BS.
   destruct (build_conns cf true (fc_name fc) Res (build_fuel cf) (fc_name fc) [fc_name fc]
-                        (fc_res fc) (empty_bdir, foreign)) as [[bs fo2]| |]; [|discriminate|contradiction].
+                        (fc_res fc) (empty_bdir, if fresh then None else foreign))
+    as [[bs fo2]| |]; [|discriminate|contradiction].
   pose proof (validate_dir_no_fuel allstarts Req (to_dgraph bq)) as VQ.
   destruct (validate_dir allstarts Req (to_dgraph bq)); [|discriminate|contradiction].
   pose proof (validate_dir_no_fuel allstarts Res (to_dgraph bs)) as VS.
@@ -612,59 +614,226 @@ Proof.
   destruct (nodes (to_dgraph bq)); destruct (nodes (to_dgraph bs)); discriminate.
 Qed.
 
-Lemma build_flow_ok : forall cf fc f,
-  build_flow cf true true fc = FOk f ->
+Lemma build_flow_no_fuel : forall cf allstarts fc, build_flow cf true allstarts fc <> FFuel.
+Proof. intros. apply build_flow_with_no_fuel. Qed.
+
+Lemma build_flow_with_ok : forall fresh cf guard fc f,
+  build_flow_with fresh cf guard true fc = FOk f ->
   validate_dir true Req (freq f) = VOk /\ validate_dir true Res (fres f) = VOk
   /\ fname f = fc_name fc.
 Proof.
-  intros cf fc f. unfold build_flow.
-  destruct (build_conns cf true (fc_name fc) Req _ _ _ _ _) as [[bq foreign]| |]; try discriminate.
-  destruct (build_conns cf true (fc_name fc) Res _ _ _ _ _) as [[bs fo2]| |]; try discriminate.
+  intros fresh cf guard fc f. unfold build_flow_with.
+  destruct (build_conns cf guard (fc_name fc) Req _ _ _ _ _) as [[bq foreign]| |]; try discriminate.
+  destruct (build_conns cf guard (fc_name fc) Res _ _ _ _ _) as [[bs fo2]| |]; try discriminate.
   destruct (validate_dir true Req (to_dgraph bq)) eqn:VQ; try discriminate.
   destruct (validate_dir true Res (to_dgraph bs)) eqn:VS; try discriminate.
   destruct (nodes (to_dgraph bq)); destruct (nodes (to_dgraph bs)); try discriminate;
     intros H; inversion H; subst; cbn [freq fres fname]; repeat split; assumption.
 Qed.
 
+Lemma build_flow_ok : forall cf fc f,
+  build_flow cf true true fc = FOk f ->
+  validate_dir true Req (freq f) = VOk /\ validate_dir true Res (fres f) = VOk
+  /\ fname f = fc_name fc.
+Proof. intros cf fc f. apply build_flow_with_ok. Qed.
+
 Definition flow_valid (f : flow) : Prop :=
   validate_dir true Req (freq f) = VOk /\ validate_dir true Res (fres f) = VOk.
+
+(* what [build_all_by] returns, in terms of the single builds *)
+Lemma build_all_by_accept : forall build fcs fs,
+  build_all_by build fcs = Accept fs -> Forall2 (fun fc f => build fc = FOk f) fcs fs.
+Proof.
+  intros build fcs. induction fcs as [|fc fcs IH]; intros fs H; cbn [build_all_by] in H.
+  - inversion H. constructor.
+  - destruct (build fc) as [f| |] eqn:B.
+    + destruct (build_all_by build fcs) as [fs'| |] eqn:R; try discriminate.
+      inversion H. subst. constructor; [exact B|apply IH; reflexivity].
+    + destruct (build_all_by build fcs); discriminate.
+    + discriminate.
+Qed.
+
+Lemma build_all_by_no_fuel : forall build fcs,
+  (forall fc, build fc <> FFuel) -> build_all_by build fcs <> LoaderFuel.
+Proof.
+  intros build fcs N. induction fcs as [|fc fcs IH]; cbn [build_all_by]; [discriminate|].
+  specialize (N fc).
+  destruct (build fc); [| |contradiction].
+  - destruct (build_all_by build fcs); [discriminate|discriminate|contradiction].
+  - destruct (build_all_by build fcs); [discriminate|discriminate|contradiction].
+Qed.
+
+(* some flow fails to build, none runs out of budget: rejected at stage 3 *)
+Lemma build_all_by_reject : forall build fcs fc,
+  (forall fc', build fc' <> FFuel) -> In fc fcs -> build fc = FBad ->
+  build_all_by build fcs = Reject 3.
+Proof.
+  intros build fcs fc N. induction fcs as [|x fcs IH]; intros I B; [contradiction|].
+  cbn [build_all_by]. pose proof (build_all_by_no_fuel build fcs N) as NF.
+  destruct I as [E|I].
+  - subst x. rewrite B. destruct (build_all_by build fcs); [reflexivity|reflexivity|contradiction].
+  - rewrite (IH I B). pose proof (N x) as Nx.
+    destruct (build x); [reflexivity|reflexivity|contradiction].
+Qed.
+
+(* every flow builds: accepted, with the flows in configuration order *)
+Lemma build_all_by_all_ok : forall build fcs,
+  (forall fc, In fc fcs -> is_fbad (build fc) = false) -> (forall fc, build fc <> FFuel) ->
+  exists fs, build_all_by build fcs = Accept fs.
+Proof.
+  intros build fcs. induction fcs as [|x fcs IH]; intros A N; cbn [build_all_by]; [eauto|].
+  destruct IH as [fs E]; [intros fc I; apply A; right; exact I|exact N|].
+  rewrite E. pose proof (A x (or_introl eq_refl)) as Ax. pose proof (N x) as Nx.
+  destruct (build x); [eauto|discriminate|contradiction].
+Qed.
+
+Lemma filter_all : forall (A : Type) (p : A -> bool) l,
+  (forall x, In x l -> p x = true) -> filter p l = l.
+Proof.
+  intros A p l. induction l as [|x l IH]; intros H; cbn [filter]; [reflexivity|].
+  rewrite (H x) by (left; reflexivity). f_equal. apply IH. intros y I. apply H. right. exact I.
+Qed.
+
+Lemma filter_none : forall (A : Type) (p : A -> bool) l,
+  (forall x, In x l -> p x = false) -> filter p l = [].
+Proof.
+  intros A p l. induction l as [|x l IH]; intros H; cbn [filter]; [reflexivity|].
+  rewrite (H x) by (left; reflexivity). apply IH. intros y I. apply H. right. exact I.
+Qed.
+
+(* a flow's build does not depend on what was built before it, so the second
+   pass of flowBuilder.build() over the flows that failed changes nothing *)
+Lemma two_pass_is_single : forall build fcs,
+  build_two_pass build fcs = build_all_by build fcs.
+Proof.
+  intros build fcs. unfold build_two_pass.
+  set (ok := fun fc => negb (is_fbad (build fc))).
+  set (bad := fun fc => is_fbad (build fc)).
+  destruct (existsb (fun fc => match build fc with FFuel => true | _ => false end) fcs) eqn:XF.
+  - (* some flow exhausts the budget (never the case: build_flow_with_no_fuel) *)
+    assert (G : forall l, (exists fc, In fc l /\ build fc = FFuel) -> incl l fcs ->
+                          build_all_by build l = LoaderFuel).
+    { induction l as [|x l IH]; intros [fc [I B]] INC; [contradiction|]. cbn [build_all_by].
+      destruct I as [E|I].
+      - subst x. rewrite B. reflexivity.
+      - rewrite IH; [|eauto|intros y Y; apply INC; right; exact Y].
+        destruct (build x); reflexivity. }
+    apply existsb_exists in XF. destruct XF as [fc [I B]].
+    destruct (build fc) eqn:BF; try discriminate.
+    rewrite (G (filter ok fcs)).
+    + symmetry. apply G; [eauto|apply incl_refl].
+    + exists fc. split; [|exact BF]. apply filter_In. split; [exact I|].
+      unfold ok. rewrite BF. reflexivity.
+    + intros y Y. apply filter_In in Y. apply Y.
+  - assert (N : forall fc, In fc fcs -> build fc <> FFuel).
+    { intros fc I E. assert (X : existsb (fun fc => match build fc with FFuel => true | _ => false end) fcs = true).
+      { apply existsb_exists. exists fc. split; [exact I|]. rewrite E. reflexivity. }
+      congruence. }
+    clear XF.
+    (* restrict [build] to fcs: outside it, FFuel cannot be excluded; work with lists *)
+    assert (AOK : forall l, incl l fcs -> (forall fc, In fc l -> is_fbad (build fc) = false) ->
+                            exists fs, build_all_by build l = Accept fs
+                                       /\ Forall2 (fun fc f => build fc = FOk f) l fs).
+    { induction l as [|x l IH]; intros INC A; cbn [build_all_by]; [exists []; split; [reflexivity|constructor]|].
+      destruct IH as [fs [E F2]]; [intros y Y; apply INC; right; exact Y|intros y Y; apply A; right; exact Y|].
+      rewrite E. pose proof (A x (or_introl eq_refl)) as Ax.
+      pose proof (N x (INC x (or_introl eq_refl))) as Nx.
+      destruct (build x) as [f| |] eqn:BX; [|discriminate|contradiction].
+      exists (f :: fs). split; [reflexivity|constructor; assumption]. }
+    assert (ABAD : forall l, incl l fcs -> l <> [] -> (forall fc, In fc l -> build fc = FBad) ->
+                             build_all_by build l = Reject 3).
+    { induction l as [|x l IH]; intros INC NE A; [contradiction|]. cbn [build_all_by].
+      rewrite (A x) by (left; reflexivity).
+      destruct l as [|y l']; [reflexivity|].
+      rewrite IH; [reflexivity|intros z Z; apply INC; right; exact Z|discriminate|
+                   intros z Z; apply A; right; exact Z]. }
+    assert (AMIX : forall l, incl l fcs -> (exists fc, In fc l /\ build fc = FBad) ->
+                             build_all_by build l = Reject 3).
+    { induction l as [|x l IH]; intros INC [fc [I B]]; [contradiction|]. cbn [build_all_by].
+      assert (NFl : build_all_by build l <> LoaderFuel).
+      { clear IH I. assert (INCl : incl l fcs) by (intros z Z; apply INC; right; exact Z).
+        clear INC. induction l as [|y l IHl]; cbn [build_all_by]; [discriminate|].
+        pose proof (N y (INCl y (or_introl eq_refl))) as Ny.
+        assert (IHl' : build_all_by build l <> LoaderFuel)
+          by (apply IHl; intros z Z; apply INCl; right; exact Z).
+        destruct (build y); [| |contradiction];
+          destruct (build_all_by build l); try discriminate; contradiction. }
+      destruct I as [E|I].
+      - subst x. rewrite B. destruct (build_all_by build l); [reflexivity|reflexivity|contradiction].
+      - rewrite IH; [|intros z Z; apply INC; right; exact Z|eauto].
+        pose proof (N x (INC x (or_introl eq_refl))) as Nx.
+        destruct (build x); [reflexivity|reflexivity|contradiction]. }
+    destruct (existsb bad fcs) eqn:XB.
+    + (* something is pending: the second pass fails on it again *)
+      apply existsb_exists in XB. destruct XB as [fc [I B]].
+      assert (BF : build fc = FBad) by (unfold bad, is_fbad in B; destruct (build fc); congruence).
+      rewrite (AMIX fcs (incl_refl _)) by eauto.
+      destruct (AOK (filter ok fcs)) as [fs [E _]].
+      { intros y Y. apply filter_In in Y. apply Y. }
+      { intros y Y. apply filter_In in Y. destruct Y as [_ Y]. unfold ok in Y.
+        destruct (is_fbad (build y)); [discriminate|reflexivity]. }
+      rewrite E. rewrite ABAD; [reflexivity| | |].
+      * intros y Y. apply filter_In in Y. apply Y.
+      * intros X. assert (Y : In fc (filter bad fcs)) by (apply filter_In; split; assumption).
+        rewrite X in Y. contradiction.
+      * intros y Y. apply filter_In in Y. destruct Y as [_ Y]. unfold bad, is_fbad in Y.
+        destruct (build y); congruence.
+    + (* nothing is pending *)
+      assert (NB : forall fc, In fc fcs -> is_fbad (build fc) = false).
+      { intros fc I. destruct (is_fbad (build fc)) eqn:E; [|reflexivity].
+        assert (X : existsb bad fcs = true) by (apply existsb_exists; exists fc; split; assumption).
+        congruence. }
+      rewrite (filter_all _ ok fcs) by (intros x I; unfold ok; rewrite (NB x I); reflexivity).
+      rewrite (filter_none _ bad fcs) by (intros x I; apply NB; exact I).
+      destruct (AOK fcs (incl_refl _) NB) as [fs [E _]]. rewrite E. cbn [build_all_by].
+      rewrite app_nil_r. reflexivity.
+Qed.
+
+Lemma built_valid : forall cf fcs fs,
+  Forall2 (fun fc f => build_flow cf true true fc = FOk f) fcs fs -> Forall flow_valid fs.
+Proof.
+  intros cf fcs fs H.
+  induction H as [|fc f fcs fs B _ IH]; constructor; [|exact IH].
+  destruct (build_flow_ok _ _ _ B) as [A [C _]]. split; assumption.
+Qed.
 
 Lemma build_all_ok : forall cf fcs fs,
   build_all cf true true fcs = Accept fs -> Forall flow_valid fs.
 Proof.
-  intros cf fcs. induction fcs as [|fc fcs IH]; intros fs H; cbn [build_all] in H.
-  - inversion H. constructor.
-  - destruct (build_flow cf true true fc) as [f| |] eqn:B.
-    + destruct (build_all cf true true fcs) as [fs'| |] eqn:R; try discriminate.
-      inversion H. subst. constructor; [|apply IH; reflexivity].
-      destruct (build_flow_ok _ _ _ B) as [A [C _]]. split; assumption.
-    + destruct (build_all cf true true fcs); discriminate.
-    + discriminate.
+  intros cf fcs fs H. apply build_all_by_accept in H. eapply built_valid. exact H.
 Qed.
 
 Lemma build_all_no_fuel : forall cf allstarts fcs, build_all cf true allstarts fcs <> LoaderFuel.
 Proof.
-  intros cf allstarts fcs. induction fcs as [|fc fcs IH]; cbn [build_all]; [discriminate|].
-  pose proof (build_flow_no_fuel cf allstarts fc) as N.
-  destruct (build_flow cf true allstarts fc); [| |contradiction].
-  - destruct (build_all cf true allstarts fcs); [discriminate|discriminate|contradiction].
-  - destruct (build_all cf true allstarts fcs); [discriminate|discriminate|contradiction].
+  intros cf allstarts fcs. apply build_all_by_no_fuel. intros fc. apply build_flow_no_fuel.
+Qed.
+
+Lemma load_gen_no_fuel : forall fresh cf allstarts, load_gen fresh true allstarts cf <> LoaderFuel.
+Proof.
+  intros fresh cf allstarts. unfold load_gen.
+  destruct (negb (struct_ok cf)); [discriminate|].
+  destruct (negb (procs_ok cf)); [discriminate|].
+  apply build_all_by_no_fuel. intros fc. apply build_flow_with_no_fuel.
 Qed.
 
 Lemma load_no_fuel : forall cf allstarts, load_with true allstarts cf <> LoaderFuel.
+Proof. intros. apply load_gen_no_fuel. Qed.
+
+Lemma load_accept_built : forall cf fs,
+  load cf = Accept fs ->
+  struct_ok cf = true /\ procs_ok cf = true
+  /\ Forall2 (fun fc f => build_flow cf true true fc = FOk f) (cf_flows cf) fs.
 Proof.
-  intros cf allstarts. unfold load_with.
-  destruct (negb (struct_ok cf)); [discriminate|].
-  destruct (negb (procs_ok cf)); [discriminate|].
-  apply build_all_no_fuel.
+  intros cf fs. unfold load, load_with, load_gen.
+  destruct (struct_ok cf); [|discriminate].
+  destruct (procs_ok cf); [|discriminate]. cbn [negb].
+  intros H. repeat split. apply build_all_by_accept in H. exact H.
 Qed.
 
 Lemma load_accept_valid : forall cf fs, load cf = Accept fs -> Forall flow_valid fs.
 Proof.
-  intros cf fs. unfold load, load_with.
-  destruct (negb (struct_ok cf)); [discriminate|].
-  destruct (negb (procs_ok cf)); [discriminate|].
-  apply build_all_ok.
+  intros cf fs H. destruct (load_accept_built cf fs H) as [_ [_ F2]].
+  eapply built_valid. exact F2.
 Qed.
 
 (* ---------------------------------------------------- the whole transaction *)
@@ -785,12 +954,12 @@ Lemma build_conns_S : forall cf guard top d f cur stack cs s,
   = build_list (build_conn cf guard top d (build_conns cf guard top d f) cur stack) cs s.
 Proof. reflexivity. Qed.
 
-Lemma self_reference_rejected : forall cf allstarts fc pre c post,
+Lemma self_reference_rejected_with : forall fresh cf allstarts fc pre c post,
   In fc (cf_flows cf) ->
   fc_req fc = pre ++ c :: post -> refers_to c (fc_name fc) ->
-  build_flow cf true allstarts fc = FBad.
+  build_flow_with fresh cf true allstarts fc = FBad.
 Proof.
-  intros cf allstarts fc pre c post IN E R. unfold build_flow.
+  intros fresh cf allstarts fc pre c post IN E R. unfold build_flow_with.
   assert (FF : exists f, find_flow cf (fc_name fc) = Some f).
   { unfold find_flow.
     destruct (find (fun f => fc_name f =? fc_name fc) (cf_flows cf)) as [f|] eqn:F; [eauto|].
@@ -807,6 +976,12 @@ Proof.
       + cbn [length]. lia. }
   rewrite B. reflexivity.
 Qed.
+
+Lemma self_reference_rejected : forall cf allstarts fc pre c post,
+  In fc (cf_flows cf) ->
+  fc_req fc = pre ++ c :: post -> refers_to c (fc_name fc) ->
+  build_flow cf true allstarts fc = FBad.
+Proof. intros cf allstarts. apply self_reference_rejected_with. Qed.
 
 (* ------------------------------------ every flow-reference cycle is rejected *)
 
@@ -881,27 +1056,34 @@ Proof.
     apply IH; [right; exact IN|reflexivity].
 Qed.
 
-Lemma reference_cycle_rejected : forall cf allstarts fc d,
+Lemma reference_cycle_rejected_with : forall fresh cf allstarts fc d,
   find_flow cf (fc_name fc) = Some fc ->
   ref_path cf d (fc_name fc) (fc_name fc) ->
-  build_flow cf true allstarts fc = FBad.
+  build_flow_with fresh cf true allstarts fc = FBad.
 Proof.
-  intros cf allstarts fc d FF P.
-  pose proof (build_flow_no_fuel cf allstarts fc) as NF.
+  intros fresh cf allstarts fc d FF P.
+  pose proof (build_flow_with_no_fuel fresh cf allstarts fc) as NF.
   assert (NOK : forall s, is_ok (build_conns cf true (fc_name fc) d (build_fuel cf) (fc_name fc)
                                            [fc_name fc] (fc_conns fc d) s) = false).
   { intros s. eapply ref_path_not_ok; [exact P|left; reflexivity|exact FF]. }
-  unfold build_flow in *.
+  unfold build_flow_with in *.
   destruct (build_conns cf true (fc_name fc) Req (build_fuel cf) (fc_name fc) [fc_name fc]
                         (fc_req fc) (empty_bdir, None)) as [[bq foreign]| |] eqn:BQ;
     [|reflexivity|contradiction].
   destruct d.
   { specialize (NOK (empty_bdir, None)). cbn [fc_conns] in NOK. rewrite BQ in NOK. discriminate. }
   destruct (build_conns cf true (fc_name fc) Res (build_fuel cf) (fc_name fc) [fc_name fc]
-                        (fc_res fc) (empty_bdir, foreign)) as [[bs fo2]| |] eqn:BS;
+                        (fc_res fc) (empty_bdir, if fresh then None else foreign)) as [[bs fo2]| |] eqn:BS;
     [|reflexivity|contradiction].
-  specialize (NOK (empty_bdir, foreign)). cbn [fc_conns] in NOK. rewrite BS in NOK. discriminate.
+  specialize (NOK (empty_bdir, if fresh then None else foreign)). cbn [fc_conns] in NOK.
+  rewrite BS in NOK. discriminate.
 Qed.
+
+Lemma reference_cycle_rejected : forall cf allstarts fc d,
+  find_flow cf (fc_name fc) = Some fc ->
+  ref_path cf d (fc_name fc) (fc_name fc) ->
+  build_flow cf true allstarts fc = FBad.
+Proof. intros cf allstarts. apply reference_cycle_rejected_with. Qed.
 
 (* ------------------------------------------------ statements as used in Property.v *)
 
